@@ -9,6 +9,7 @@ ROOT = os.path.dirname(os.path.abspath(__file__))
 ATTACH = {
     "src/bit_encoding/bititer.rs": "bititer.rs",
     "src/lib.rs": "std_specs.rs",
+    "src/analysis.rs": "analysis.rs",
 }
 
 
